@@ -591,8 +591,17 @@ Fixpoint strip_loop (n : nat) (p : bytes) (at_start : bool) : bytes * bool :=
 
 Definition has_root (p : bytes) : bool := match p with 47 :: _ => true | _ => false end.
 
+(* skip_cur_dir: a "." component (there can only be one, at the very start) is dropped *)
+Definition skip_cur (rest : bytes) (at_start : bool) : bytes * bool :=
+  if at_start then match comp_next (S (length rest)) rest true with
+                   | (p', s', Some CCur) => (p', s')
+                   | _ => (rest, at_start)
+                   end
+  else (rest, at_start).
+
 Definition strip_path (n : nat) (p : bytes) : bytes :=
-  let '(rest, at_start) := strip_loop n p true in
+  let '(rest0, at_start0) := strip_loop n p true in
+  let '(rest, at_start) := skip_cur rest0 at_start0 in
   let rest := if at_start then rest else trim_left (S (length rest)) rest in
   (* len_before_body: the root (or a leading ".") still to be yielded stays *)
   let before := if at_start then (if has_root rest then 1%nat
